@@ -7,7 +7,7 @@
 //   ht random <report.ndjson> <trace.ndjson> <seed> <runs> <ops per run> <class 0|1|2> <hash 0|1> <prefill P> <slack> <keys K> <vals V> <iterators>
 //        code -> spec: seeded random long runs; every call is logged (op, args, result, full key/value order of both tables, iterator
 //        states) for line-by-line validation by TLC (spec/OrderedMap/MapTrace.tla).  class: 0 Hashtable, 1 OrderedKeys, 2 OrderedValues.
-// hash 1 = all keys of the model collide (and collide with one entry of the prefill block).
+// hash: see main() - default, all-colliding, boundary hash codes (guard value 0xFFFFFFFF, 0, ...), colliding modulo the table size, key offset.
 // Prefill: P untouched entries with keys -P..-1 (values = keys) kept as a block at the FRONT of the table under test, table sized P+slack
 // at the start, so that the small behaviours of the model cross the index-width boundaries (tableSize 254/255/256, 65534/65535/65536)
 // with iterators registered.  Positions / indices are translated by P; calls that would move something in front of the block or detach
@@ -486,35 +486,51 @@ template<class TableT, class HashF> static int Random(const char * outFile, cons
    return 0;
 }
 
+// hash argument: 0 default functor, 1 all model keys in one bucket, 2 boundary hash codes (guard value, 0, ...), 3 distinct codes colliding modulo the
+// table size; +4: real key = model key + 1621770656 (model key 2 becomes the int whose DEFAULT hash code is the guard value 0xFFFFFFFF)
+template<class HashF> static int RunReplay(int cls, char ** argv, uint32 P, uint32 slack, const char * pf)
+{
+   switch(cls) {
+      case 0: return Replay<Hashtable<int,int,HashF>, HashF>(argv[2], argv[3], P, slack, pf);
+      case 1: return Replay<OrderedKeysHashtable<int,int,CompareFunctor<int>,HashF>, HashF>(argv[2], argv[3], P, slack, pf);
+      case 2: return Replay<OrderedValuesHashtable<int,int,CompareFunctor<int>,HashF>, HashF>(argv[2], argv[3], P, slack, pf);
+   }
+   return 2;
+}
+template<class HashF> static int RunRandom(int cls, char ** argv, uint32 seed, uint32 runs, uint32 nops, uint32 P, uint32 slack, int K, int V, int nIt)
+{
+   switch(cls) {
+      case 0: return Random<Hashtable<int,int,HashF>, HashF>(argv[2], argv[3], seed, runs, nops, false, false, P, slack, K, V, nIt);
+      case 1: return Random<OrderedKeysHashtable<int,int,CompareFunctor<int>,HashF>, HashF>(argv[2], argv[3], seed, runs, nops, true, false, P, slack, K, V, nIt);
+      case 2: return Random<OrderedValuesHashtable<int,int,CompareFunctor<int>,HashF>, HashF>(argv[2], argv[3], seed, runs, nops, true, true, P, slack, K, V, nIt);
+   }
+   return 2;
+}
+
 int main(int argc, char ** argv)
 {
    CompleteSetupSystem css;
    if ((argc >= 7)&&(!strcmp(argv[1], "replay"))) {
-      const bool bad = atoi(argv[4]) != 0; const uint32 P = (uint32) atol(argv[5]), slack = (uint32) atol(argv[6]); const char * pf = (argc > 7) ? argv[7] : NULL; const int cls = (argc > 8) ? atoi(argv[8]) : 0;
-      typedef PODHashFunctor<int> GH0;
-      switch(cls*2+(bad ? 1 : 0)) {
-         case 0: return Replay<Hashtable<int,int>, GH0>(argv[2], argv[3], P, slack, pf);
-         case 1: return Replay<Hashtable<int,int,BadHash>, BadHash>(argv[2], argv[3], P, slack, pf);
-         case 2: return Replay<OrderedKeysHashtable<int,int,CompareFunctor<int>,GH0>, GH0>(argv[2], argv[3], P, slack, pf);
-         case 3: return Replay<OrderedKeysHashtable<int,int,CompareFunctor<int>,BadHash>, BadHash>(argv[2], argv[3], P, slack, pf);
-         case 4: return Replay<OrderedValuesHashtable<int,int,CompareFunctor<int>,GH0>, GH0>(argv[2], argv[3], P, slack, pf);
-         case 5: return Replay<OrderedValuesHashtable<int,int,CompareFunctor<int>,BadHash>, BadHash>(argv[2], argv[3], P, slack, pf);
+      const int h = atoi(argv[4]); const uint32 P = (uint32) atol(argv[5]), slack = (uint32) atol(argv[6]); const char * pf = (argc > 7) ? argv[7] : NULL; const int cls = (argc > 8) ? atoi(argv[8]) : 0;
+      if (h >= 4) KOFF = 1621770656;
+      switch(h%4) {
+         case 0: return RunReplay<PODHashFunctor<int> >(cls, argv, P, slack, pf);
+         case 1: return RunReplay<BadHash>(cls, argv, P, slack, pf);
+         case 2: return RunReplay<EdgeHash>(cls, argv, P, slack, pf);
+         case 3: return (cls == 0) ? RunReplay<ModHash>(0, argv, P, slack, pf) : 2;
       }
-      return 2;
    }
    if ((argc >= 14)&&(!strcmp(argv[1], "random"))) {
-      const uint32 seed = (uint32) atol(argv[4]), runs = (uint32) atol(argv[5]), nops = (uint32) atol(argv[6]); const int cls = atoi(argv[7]); const bool bad = atoi(argv[8]) != 0;
+      const uint32 seed = (uint32) atol(argv[4]), runs = (uint32) atol(argv[5]), nops = (uint32) atol(argv[6]); const int cls = atoi(argv[7]); const int h = atoi(argv[8]);
       const uint32 P = (uint32) atol(argv[9]), slack = (uint32) atol(argv[10]); const int K = atoi(argv[11]), V = atoi(argv[12]), nIt = muscleMin(atoi(argv[13]), MAXIT);
-      typedef PODHashFunctor<int> GH;
-      switch(cls*2+(bad ? 1 : 0)) {
-         case 0: return Random<Hashtable<int,int,GH>, GH>(argv[2], argv[3], seed, runs, nops, false, false, P, slack, K, V, nIt);
-         case 1: return Random<Hashtable<int,int,BadHash>, BadHash>(argv[2], argv[3], seed, runs, nops, false, false, P, slack, K, V, nIt);
-         case 2: return Random<OrderedKeysHashtable<int,int,CompareFunctor<int>,GH>, GH>(argv[2], argv[3], seed, runs, nops, true, false, P, slack, K, V, nIt);
-         case 3: return Random<OrderedKeysHashtable<int,int,CompareFunctor<int>,BadHash>, BadHash>(argv[2], argv[3], seed, runs, nops, true, false, P, slack, K, V, nIt);
-         case 4: return Random<OrderedValuesHashtable<int,int,CompareFunctor<int>,GH>, GH>(argv[2], argv[3], seed, runs, nops, true, true, P, slack, K, V, nIt);
-         case 5: return Random<OrderedValuesHashtable<int,int,CompareFunctor<int>,BadHash>, BadHash>(argv[2], argv[3], seed, runs, nops, true, true, P, slack, K, V, nIt);
+      if (h >= 4) KOFF = 1621770656;
+      switch(h%4) {
+         case 0: return RunRandom<PODHashFunctor<int> >(cls, argv, seed, runs, nops, P, slack, K, V, nIt);
+         case 1: return RunRandom<BadHash>(cls, argv, seed, runs, nops, P, slack, K, V, nIt);
+         case 2: return RunRandom<EdgeHash>(cls, argv, seed, runs, nops, P, slack, K, V, nIt);
+         case 3: return (cls == 0) ? RunRandom<ModHash>(0, argv, seed, runs, nops, P, slack, K, V, nIt) : 2;
       }
    }
-   fprintf(stderr, "usage: ht replay <behaviours> <report> <hash> <prefill> <slack> [progress] | ht random <report> <trace> <seed> <runs> <ops> <class> <hash> <prefill> <slack> <keys> <vals> <iterators>\n");
+   fprintf(stderr, "usage: ht replay <behaviours> <report> <hash> <prefill> <slack> [progress [class]] | ht random <report> <trace> <seed> <runs> <ops> <class> <hash> <prefill> <slack> <keys> <vals> <iterators>\n");
    return 2;
 }
